@@ -16,6 +16,8 @@ CORRESPONDENCES = {
     "dir": {"sub": "dir", "cases": {"quick": 336, "thorough": 4000}, "shards": {"quick": 8, "thorough": 16}},
     # twin runs (C09): the same scripted run twice in one process and once in a fresh process
     "twin": {"sub": "twin", "cases": {"quick": 48, "thorough": 600}, "shards": {"quick": 8, "thorough": 16}},
+    # K-pop: the real AlgoContext driven directly; the whole ranked population compared with the L5 model after every operation
+    "pop": {"sub": "pop", "cases": {"quick": 160, "thorough": 4000}, "shards": {"quick": 8, "thorough": 16}},
     "ctl": {"sub": "ctl", "cases": {"quick": 1500, "thorough": 40000}, "shards": {"quick": 4, "thorough": 16}},
 }
 
@@ -85,7 +87,7 @@ PROPS = {
     "C14": {
         "modules": ["CambrianModel.Props.C14"],
         "theorems": ["Cambrian.Props.C14_counts", "Cambrian.Props.C14_counts_always", "Cambrian.Props.C14_items",
-                     "Cambrian.Props.C14_file", "Cambrian.Props.C14_meta_probs"],
+                     "Cambrian.Props.C14_file", "Cambrian.Props.C14_meta_probs", "Cambrian.Props.C14_drained", "Cambrian.Props.C14_drained_step"],
         "correspondences": ["proc", "ctl", "algo"],
         "trusted": PROC_TRUST + CTL_TRUST + ["float law FL-mul-sign (product of a number >= 0 and a positive finite factor is a number >= 0)"],
         "assumptions": ["partial: 'positive finite mutation scale' is not provable (unclamped product); it is checked on every in-run record and CSV row"],
@@ -103,7 +105,7 @@ PROPS = {
         "modules": ["CambrianModel.Props.C16"],
         "theorems": ["Cambrian.Props.C16_argv", "Cambrian.Props.C16_argv_last_two", "Cambrian.Props.C16_classify", "Cambrian.Props.C16_accept_iff",
                      "Cambrian.Props.C16_invalid_before_start", "Cambrian.Props.C16_outdir_refused", "Cambrian.Props.C16_success",
-                     "Cambrian.Props.C16_child_failure"],
+                     "Cambrian.Props.C16_child_failure", "Cambrian.Props.C16_criteria_conflict", "Cambrian.Props.C16_criteria_budget"],
         "correspondences": ["proc"],
         "trusted": PROC_TRUST,
         "assumptions": ["partial: the glue (argument parsing, files, spawning) is compared on generated scenarios, not proved"],
@@ -155,7 +157,7 @@ PROPS = {
         "modules": ["CambrianModel.Props.C02"],
         "theorems": ["Cambrian.Props.C02_member", "Cambrian.Props.C02_min1", "Cambrian.Props.C02_nonempty1",
                      "Cambrian.Ctl.run_popInv"],
-        "correspondences": ["ctl"],
+        "correspondences": ["ctl", "pop"],
         "trusted": CTL_TRUST + ["float law FL-mean1 (mean of one value is that value; exercised by cvh selftest); for sample size > 1 the mean is an observed value"],
         "assumptions": ["objective values compared through their order codes (-0.0 = 0.0)"],
     },
@@ -163,7 +165,7 @@ PROPS = {
         "modules": ["CambrianModel.Props.C08"],
         "theorems": ["Cambrian.Props.C08_seeds", "Cambrian.Props.C08_same", "Cambrian.Props.C08_count",
                      "Cambrian.Props.C08_ids", "Cambrian.Props.C08_first"],
-        "correspondences": ["ctl"],
+        "correspondences": ["ctl", "pop"],
         "trusted": CTL_TRUST,
         "assumptions": ["float laws used: none", "sample size >= 1 (AlgoConfigBuilder rejects 0)"],
     },
@@ -171,7 +173,9 @@ PROPS = {
         "modules": ["CambrianModel.Props.C04"],
         "theorems": ["Cambrian.Props.C04_abort_request", "Cambrian.Props.C04_no_start_after_abort",
                      "Cambrian.Props.C04_nothing_after_return", "Cambrian.Props.C04_broadcast_once",
-                     "Cambrian.Props.C04_target", "Cambrian.Props.C04_drain", "Cambrian.Props.C04_returns_best"],
+                     "Cambrian.Props.C04_target", "Cambrian.Props.C04_drain", "Cambrian.Props.C04_returns_best",
+                     "Cambrian.Props.C04_one_abort_request", "Cambrian.Props.C04_terminate_first", "Cambrian.Props.C04_terminate_again",
+                     "Cambrian.Props.C04_time_limit_once"],
         "correspondences": ["ctl"],
         "trusted": CTL_TRUST,
         "assumptions": ["float laws used: none", "'delivered' = taken by the controller loop; a request racing with a completion may be honoured one completion later"],
@@ -194,7 +198,7 @@ PROPS = {
     "C05": {
         "modules": ["CambrianModel.Props.C05"],
         "theorems": ["Cambrian.Props.C05_le", "Cambrian.Props.C05_inflight_seeds_nodup", "Cambrian.Props.C05_exact"],
-        "correspondences": ["ctl"],
+        "correspondences": ["ctl", "pop"],
         "trusted": CTL_TRUST,
         "assumptions": ["float laws used: none"],
     },
